@@ -135,6 +135,8 @@ def make_scenario(case):
         "index_rows": rows if rows or case.get("empty_index") else None,
         "unrelated": case.get("unrelated") or False, "case": case,
     }
+    if case.get("symlink_out"):
+        scn["symlink_out"] = True
     if case.get("outer_env"):
         # cond itself started from inside a task of another Conductor project (or with COND_* exported in the shell)
         scn["env"] = {"COND_OUT": "/outer/cond-out/outer.task", "COND_DEPS": "/outer/cond-out/d1.task:/outer/cond-out/d2.task",
